@@ -248,7 +248,10 @@ func arrayExecMerge(ar *Array, values []r.Element) (r.Element, error) {
 	// update new array
 	ar.value = result
 
-	return NewArray(result), nil
+	// the list handed back is a list of its own: sharing the receiver's storage, an item
+	// appended to one of the two landed in the other one's spare capacity (and a list could
+	// end up inside itself, which no later operation survives)
+	return NewArray(append([]r.Element{}, result...)), nil
 }
 
 func arrayExecContains(ar *Array, values []r.Element) (r.Element, error) {
